@@ -1,5 +1,6 @@
 import NodisVerif.Wire
 import NodisVerif.Model.Skiplist
+import NodisVerif.Model.SkiplistZSet
 import NodisVerif.Driver.ApiOps
 /- driver commands for the pointer-level skiplist tie: `sl <op> <args…> [lvl=<h>]` (see DESIGN_NOTES.md) -/
 namespace NodisVerif.Driver
@@ -95,5 +96,45 @@ def slOp (sl : SL) (toks : List String) : SL × String :=
      | some a, some b => slMut sl ((removeRangeByRank sl a b).map fun (sl', rem) => (sl', "removed=" ++ slItems rem))
      | _, _ => (sl, "bad-op"))
   | _ => (sl, "bad-op")
+
+
+/-! `slz <Method> …`: the real `SortedSet` methods against the pointer-level sorted set of Model/SkiplistZSet.lean -/
+
+def slzMut (p : PZSet) (r : M (PZSet × Int)) : PZSet × String :=
+  match r with
+  | .ok (p', n) => (p', s!"{n} ; " ++ slDump p'.sl)
+  | .error e => (p, slErr e ++ " ; " ++ slDump p.sl)
+
+def slzOp (p : PZSet) (toks : List String) : PZSet × String :=
+  let lvl := ((toks.find? (·.startsWith "lvl=")).bind fun t => (t.drop 4).toString.toNat?).getD 1
+  let toks := toks.filter fun t => !t.startsWith "lvl="
+  match toks with
+  | ["new"] => (PZSet.empty, "ok ; " ++ slDump PZSet.empty.sl)
+  | ["dump"] => (p, "ok ; " ++ slDump p.sl)
+  | ["ZAdd", m, s] =>
+    (match parseArg m, hexToU64 s with
+     | some m, some s => slzMut p (pzAdd p m s lvl)
+     | _, _ => (p, "bad-op"))
+  | "ZRem" :: ms =>
+    (match ms.mapM parseArg with
+     | some ms => if ms.isEmpty then (p, "bad-op") else slzMut p (pzRem p ms)
+     | none => (p, "bad-op"))
+  | ["ZRemRangeByScore", a, b, mode] =>
+    (match hexToU64 a, hexToU64 b, mode.toNat? with
+     | some a, some b, some mode => slzMut p (pzRemRangeByScore p a b mode)
+     | _, _, _ => (p, "bad-op"))
+  | ["ZRemRangeByRank", a, b] =>
+    (match a.toInt?, b.toInt? with
+     | some a, some b => slzMut p (pzRemRangeByRank p a b)
+     | _, _ => (p, "bad-op"))
+  | ["ZRank", m] =>
+    (match parseArg m with
+     | some m =>
+       (match pzRank p m with
+        | .ok (some r) => (p, s!"{r}")
+        | .ok none => (p, "nil")
+        | .error e => (p, slErr e))
+     | none => (p, "bad-op"))
+  | _ => (p, "bad-op")
 
 end NodisVerif.Driver
